@@ -1,5 +1,6 @@
 import IpcModel.Interleave.Bridge
 import IpcModel.RecvAtt
+import IpcModel.Interleave.Att
 /-!
 # C12 — a sender crashing mid-send cannot corrupt a message or falsely close a channel
 
@@ -90,5 +91,23 @@ message is delivered -/
 example : (run (init 4608 [13000, 100] [[0], [1]])
     [.s 0, .s 0, .s 0, .crash 0, .s 1, .s 1, .r, .r, .r, .r]).map (fun st => st.msgs.map (·.rs))
     = some [.discarded, .delivered 100] := by decide
+
+/-- **C12_attachments_all_schedules** — every message may carry descriptors (`atts m`, in the control message of its first packet).  For
+every execution — any threads, sizes, ENOBUFS, fatal errors and sender crashes at any point, any order of receiver steps —
+the attachment lists handed to the receiver's caller are, in delivery order, exactly the delivered messages' own
+descriptors: a truncated message that is discarded in between leaves nothing behind (for the handling of `recv`'s vectors
+regenerated from the source, `RecvAtt.codeCfg`). -/
+theorem C12_attachments_all_schedules (atts : Nat → List Nat) (sys : Nat) (lens : List Nat) (threads : List (List Nat)) (as : List Act) :
+    (RecvAtt.feedAll RecvAtt.codeCfg ⟨[], none, []⟩ ((routs (init sys lens threads) as).flatMap (evOf atts))).out
+      = ((routs (init sys lens threads) as).flatMap delivOf).map atts :=
+  att_init atts sys lens threads as
+
+/-- non-vacuity and sensitivity on the crash schedule above (message 0 carries descriptors 7, 8 and dies; message 1 carries 1):
+the code variant returns `[1]` with the delivered message; with the vectors kept across the discard it would be `[7, 8, 1]` -/
+example : ((routs (init 4608 [13000, 100] [[0], [1]]) [.s 0, .s 0, .s 0, .crash 0, .s 1, .s 1, .r, .r, .r, .r]).flatMap delivOf) = [1] := by decide
+example : (RecvAtt.feedAll ⟨true, true⟩ ⟨[], none, []⟩ ((routs (init 4608 [13000, 100] [[0], [1]])
+    [.s 0, .s 0, .s 0, .crash 0, .s 1, .s 1, .r, .r, .r, .r]).flatMap (evOf fun m => if m = 0 then [7, 8] else [1]))).out = [[1]] := by decide
+example : (RecvAtt.feedAll ⟨true, false⟩ ⟨[], none, []⟩ ((routs (init 4608 [13000, 100] [[0], [1]])
+    [.s 0, .s 0, .s 0, .crash 0, .s 1, .s 1, .r, .r, .r, .r]).flatMap (evOf fun m => if m = 0 then [7, 8] else [1]))).out = [[7, 8, 1]] := by decide
 
 end C12
